@@ -56,7 +56,7 @@ def _meta_attrs(draw, d, p_present=8):
     r = draw(st.integers(0, 9))
 
     if r < p_present:
-        d['meta'] = draw(gen.json_objects(max_leaves=5))
+        d['meta'] = draw(gen.json_objects(max_leaves=5, nonfinite=True))
     elif r == p_present:
         d['meta'] = {}
 
